@@ -39,7 +39,7 @@ func getLabel(stores context2.Stores, repo, name string) (string, error) {
 
 type c06state struct {
 	w        *World
-	b1, b2   string // committed before the operation under test
+	b1, b2   string                       // committed before the operation under test
 	files    map[string]map[string][]byte // bundle id -> expected files (filled as bundles become known)
 	diamond  string
 	attempts []string
